@@ -252,10 +252,12 @@ class Check:
                 if len(seen) >= 20:
                     break
             rc = 1
-        shutil.rmtree(self.tmp, ignore_errors=True)
+        if not os.environ.get("VERIF_KEEP_TMP"):
+            shutil.rmtree(self.tmp, ignore_errors=True)
         self.log("done rc=%d wall=%.1fs states=%d traces=%d evals=%d" % (
             rc, wall, self.cov["states"], self.cov["traces_validated_against_impl"], self.cov["evaluations"]))
         return rc
 
     def cleanup(self):
-        shutil.rmtree(self.tmp, ignore_errors=True)
+        if not os.environ.get("VERIF_KEEP_TMP"):
+            shutil.rmtree(self.tmp, ignore_errors=True)
